@@ -124,3 +124,48 @@ def make_proof(value, blind, H, exp, mantissa, minv, extra, rng, reserved=0, sma
         for j in range(rsizes[i]): is_forged.append(j != digs[i])
     proof = hdr + bytes(signbytes) + b''.join(xs) + e0 + b''.join(b32(x) for x in flat)
     return dict(C=C, proof=proof, soff=soff, scalars=flat, is_forged=is_forged, xoff=len(hdr) + len(signbytes), rings=rings, hdrlen=len(hdr), rsizes=rsizes)
+
+def make_proof_smallx(rng, extra, noncanon, mantissa=None):
+    """adversarial prover for a proof whose FIRST digit commitment has a tiny x coordinate (x0 < 2^32 + 977), so that x0 + p still
+    fits in 32 bytes.  Nobody knows the discrete log of such a point, but the prover is free to choose the generator: with
+    H := d0^-1 (C0 - k0 G) the ring member for the true digit d0 is C0 - d0 H = k0 G.  noncanon=True encodes the coordinate as
+    x0 + p (and hashes those bytes, as the verifier would): a correct verifier must reject it.  returns dict(C, H, proof, x0)."""
+    mant = mantissa or rng.choice((3, 4)); rsizes = layout(mant); rings = len(rsizes)
+    while True:
+        x0 = rng.randrange(1, 2**32 + 977)
+        C0 = zkp.xquad(x0)
+        if C0 is not None: break
+    sign0 = rng.randrange(2)
+    if sign0: C0 = neg(C0)
+    d0 = rng.randrange(1, 4); k0 = rng.randrange(1, n)
+    H = mul(pow(d0, -1, n), sub(C0, mulG(k0)))
+    if H is None: return None
+    digs = [d0]; secs = [k0]; firsts = [C0]
+    for i in range(1, rings):
+        di = rng.randrange(rsizes[i]); bi = rng.randrange(1, n)
+        Ci = add(mulG(bi), mul(di * 4 ** i, H) if di else None)
+        if Ci is None: return None
+        digs.append(di); secs.append(bi); firsts.append(Ci)
+    C = None
+    for c in firsts: C = add(C, c)
+    if C is None: return None
+    hdr = bytes([64, mant - 1])
+    signs = [sign0] + [0 if is_square(firsts[i][1]) else 1 for i in range(1, rings - 1)]
+    xs = [b32(x0 + p if noncanon else x0)] + [b32(firsts[i][0]) for i in range(1, rings - 1)]
+    signbytes = bytearray((rings + 6) >> 3)
+    for i, sg in enumerate(signs): signbytes[i >> 3] |= sg << (i & 7)
+    m = rp_ser_point(C) + rp_ser_point(H) + hdr + b''.join(bytes([signs[i]]) + xs[i] for i in range(rings - 1))
+    m = sha(m + extra)
+    pubs = []; base = neg(H)
+    for i in range(rings):
+        ring = [firsts[i]]
+        for j in range(1, rsizes[i]): ring.append(add(ring[-1], base))
+        pubs.append(ring)
+        if i < rings - 1: base = mul(4, base)
+    if any(P is None for ring in pubs for P in ring): return None
+    forged = [[rng.randrange(1, n) for j in range(rsizes[i])] for i in range(rings)]
+    res = borromean.sign(pubs, digs, secs, [rng.randrange(1, n) for i in range(rings)], forged, m)
+    if res is None: return None
+    e0, s = res
+    proof = hdr + bytes(signbytes) + b''.join(xs) + e0 + b''.join(b32(x) for ring in s for x in ring)
+    return dict(C=C, H=H, proof=proof, x0=x0, mant=mant)
